@@ -88,13 +88,32 @@ def net_p_only():
                  "struct": ("pipe", "in_service", [1], False)}
 
 
+def net_valved():
+    """water net with an open valve and an active flow controller next to pipes (branches whose momentum equation has structurally
+    zero Jacobian entries)"""
+    import pandapipes as pp
+    net = pp.create_empty_network(fluid="water")
+    j = [pp.create_junction(net, 5, 310) for _ in range(5)]
+    pp.create_ext_grid(net, j[0], 5.5, 330, type="pt")
+    pp.create_pipe_from_parameters(net, j[0], j[1], 0.4, 90, k_mm=0.1, u_w_per_m2k=4)
+    pp.create_valve(net, j[1], j[2], "ju", 80, loss_coefficient=0.0)
+    pp.create_pipe_from_parameters(net, j[2], j[3], 0.3, 80, k_mm=0.1, u_w_per_m2k=4)
+    pp.create_flow_control(net, j[1], j[4], 0.3)
+    pp.create_pipe_from_parameters(net, j[4], j[3], 0.5, 60, k_mm=0.1, u_w_per_m2k=4)
+    pp.create_pipe_from_parameters(net, j[2], j[4], 0.2, 60, k_mm=0.1, u_w_per_m2k=4)
+    pp.create_sink(net, j[3], 1.0)
+    pp.create_sink(net, j[4], 0.2)
+    return net, {"break": ("ext_grid", "in_service", [0], False), "edit": ("sink", "mdot_kg_per_s", [0], 1.6),
+                 "struct": ("pipe", "in_service", [3], False)}
+
+
 def net_branched_relabel():
     """the branched net; its structural edit gives the second sink another index label (7 instead of 1)"""
     net, knobs = net_branched()
     return net, dict(knobs, struct=("sink", "__index__", [1], 7))
 
 
-NETS = {"branched_relabel": net_branched_relabel, "p_only": net_p_only, "deadend": net_deadend_source, "heating_loop": net_heating_loop, "branched": net_branched, "gas": net_gas, "versatility": net_versatility}
+NETS = {"valved": net_valved, "branched_relabel": net_branched_relabel, "p_only": net_p_only, "deadend": net_deadend_source, "heating_loop": net_heating_loop, "branched": net_branched, "gas": net_gas, "versatility": net_versatility}
 THERMAL_NETS = ("heating_loop", "branched")
 
 
@@ -170,6 +189,33 @@ def float_diff_class(a, b):
                 k = "other"
             if rank[k] > rank[cls]:
                 cls = k
+    return cls
+
+
+def results_diff_class(a, b, tol=1e-7):
+    """class of the largest difference between the float cells of the result tables of two nets:
+    same | small (below tol: both runs are solved to the solver tolerance only) | other (also: different tables / shapes)"""
+    cls = "same"
+    keys = sorted(k for k in a.keys() if k.startswith("res_") and isinstance(a[k], pd.DataFrame))
+    if keys != sorted(k for k in b.keys() if k.startswith("res_") and isinstance(b[k], pd.DataFrame)):
+        return "other"
+    for k in keys:
+        x, y = a[k], b[k]
+        if list(x.columns) != list(y.columns) or list(x.index) != list(y.index):
+            return "other"
+        for c in x.columns:
+            if x[c].dtype.kind != "f":
+                continue
+            u = np.asarray(x[c].values, dtype=float)
+            v = np.asarray(y[c].values, dtype=float)
+            if not np.array_equal(np.isnan(u), np.isnan(v)):
+                return "other"
+            d = np.nanmax(np.abs(u - v)) if len(u) and not np.all(np.isnan(u)) else 0.0
+            scale = max(1.0, float(np.nanmax(np.abs(u))) if len(u) and not np.all(np.isnan(u)) else 1.0)
+            if d > tol * scale:
+                return "other"
+            if d > 0:
+                cls = "small"
     return cls
 
 
